@@ -91,6 +91,25 @@ Theorem C12_entry_checkpoint_swapped_refuted :
 Proof. exact prologue_swapped_refuted. Qed.
 Print Assumptions C12_entry_checkpoint_swapped_refuted.
 
+(* Re-deriving the density table in batches.  The table is allocated uninitialised; a batch plan is a list of
+   row slices.  For EVERY plan accepted by bplan_ok (one call on all rows, or ceil(n / b) batches of b > 0
+   rows), every row function, every garbage and every number of rows, evaluating in batches gives exactly
+   the row-by-row table - so what resume recomputes is what the writer held (the hypothesis of
+   C12_roundtrip for log_q). *)
+Theorem C12_batched_rederivation :
+  forall bp, bplan_ok bp = true ->
+  forall (A B : Type) (d : A) (f : A -> B) (garbage : nat -> B) (l : list A),
+    batch_eval d f garbage (plan_of bp (List.length l)) l = map f l.
+Proof. exact bplan_sound. Qed.
+Print Assumptions C12_batched_rederivation.
+
+(* refuted variant: max(n // b, 1) batches leave the rows after the last full batch unwritten *)
+Theorem C12_floor_batches_refuted :
+  exists (l : list nat), batch_eval 0 (fun x => x + 100) (fun _ => 0) (plan_of (FloorBatches 2) (List.length l)) l
+                         <> map (fun x => x + 100) l.
+Proof. exact floor_batches_refuted. Qed.
+Print Assumptions C12_floor_batches_refuted.
+
 (* non-vacuity: a result-bearing field in the exclude set is rejected, with the field named;
    a concrete object round-trips; the counter chain computes *)
 Example C12_nonvacuous :
